@@ -129,6 +129,17 @@ def analyse_key_fn(ctx, inst, kf):
                     sorted_src[k] = base
                     return ("sorted", k)
                 return ("copy", k)
+            if sb[0] == "call" and isinstance(sb[3], str) and roles.is_workspace_fn(P, sb[3]) and len(sb[4]) == 1 and set(ctx.roots(sb[4][0])) == {P_(kf, 0)}:
+                # the sorted copy comes from a helper (`sorted_asset_infos(asset_infos)`): a function of the same argument
+                # returning the collection of the two assets; that it sorts them is checked on its body below
+                g_ = P.fn(sb[3]) or P.fn(generic_path(sb[3]))
+                if g_ is not None and g_.body is not None and g_.body.arg_count == 1 and ctx.N.AssetInfoRaw in (g_.sig or "").split("->")[-1]:
+                    gex = [x for x in common.exit_sites(P, g_) if x[2] != "err"]
+                    if len(gex) == 1 and gex[0][3][0] == "mut":
+                        gsb = strip_mut(gex[0][3])
+                        if gsb[0] == "call" and isinstance(gsb[3], str) and common.last_seg(gsb[3]) in ("to_vec", "clone", "to_owned") and set(ctx.roots(gsb[4][0])) == {P_(g_, 0)}:
+                            sorted_src[k] = ("helper", g_, gex[0][3])
+                            return ("sorted", k)
         rs = set(ctx.roots(v))
         m = re.match(r"^%s\[(\d)\]$" % re.escape(P_(kf, 0)), "|".join(sorted(rs)))
         if m:
@@ -226,6 +237,12 @@ def analyse_key_fn(ctx, inst, kf):
         inst.fail("C16.R2:no-sort", kf.path, kf.span, "the two assets are not sorted before encoding: the key depends on the argument order")
         return
     m = srcs[0]
+    kf_home = kf
+    if m[0] == "helper":
+        if any(x[0] != "helper" or x[1].path != m[1].path for x in srcs):
+            inst.fail("C16.R2:no-sort", kf.path, kf.span, "the key mixes elements of differently obtained copies of the two assets: unrecognised-idiom")
+            return
+        kf, m = m[1], m[2]          # the sort is looked for in the helper that produces the sorted copy
     cons = common.borrow_consumer(P, kf, m[3], m[4])
     # through deref_mut
     steps = 0
@@ -383,6 +400,9 @@ def _run(ctx):
     # TMP.pair_key is written from the key function
     for fn in P.prod_fns():
         for (b, op, item, v) in common.storage_sites(P, fn, writes=True):
+            if item == ctx.N.TMP and op == "remove":
+                r1.site("%s TMP_PAIR_INFO cleared (no key involved)" % common.span_of_block_term(fn, b))
+                continue
             if item == ctx.N.TMP:
                 kr = set(ctx.roots(v[4][2], (("f", ctx.N.TMP_KEY_FIELD),)))
                 if len(kr) != 1 or not list(kr)[0].startswith(KEY):
@@ -455,8 +475,23 @@ def _run(ctx):
                         else:
                             r4.fail("C16.R4:duplicate-not-rejected", cp.path, common.span_of_block_term(cp, s), "a pair whose key is already registered is not always rejected: %s" % why)
                             dup_ok = True
-        if op == "load" and not dup_ok:
-            pass
+        # bool forms of the same test: `PAIRS.load(..).is_ok()`, `PAIRS.may_load(..)?.is_some()`, `PAIRS.has(..)` (directly or
+        # through a bool-returning storage accessor): the true edge must only err
+        for g_ in common.bool_guards(P, cp, helpers=False):
+            c_ = g_.cond
+            form = None
+            if c_[0] == "cmp" and c_[1] in ("is_ok", "is_some") and len(c_[2]) == 1 and mv in list(common.walk(c_[2][0])):
+                form = {"is_ok": ("load",), "is_some": ("may_load",)}[c_[1]]
+            elif c_[0] == "val" and c_[1] == mv and op == "has":
+                form = ("has",)
+            if form is None or op not in form:
+                continue
+            ok, why = common.fail_edge_only_errors(P, cp, g_.edge(True), sinks)
+            dup_ok = True
+            if ok:
+                r4.site("already-registered key (%s) => Err at %s" % (c_[1] if c_[0] == "cmp" else "has", common.span_of_block_term(cp, g_.b)))
+            else:
+                r4.fail("C16.R4:duplicate-not-rejected", cp.path, common.span_of_block_term(cp, g_.b), "a pair whose key is already registered is not always rejected: %s" % why)
     if not dup_ok:
         r4.fail("C16.R4:no-duplicate-guard", cp.path, cp.span, "creation does not test whether the key is already registered (PAIRS.may_load == Some => Err)")
     # the lookup must precede the TMP write and the sub-message (it is a read of the same key)
